@@ -234,10 +234,12 @@ def _check_lu(A4, expect_ip=None):
     N = min(m, n)
     L, Um, Pm = r.LU.quaternion_lu(A, return_p=True)
     L4, U4, P4 = rt.q_to4(L), rt.q_to4(Um), rt.q_to4(Pm)
+    if not (np.all(np.isfinite(L4)) and np.all(np.isfinite(U4))):
+        return {"what": "factors contain NaN / inf (a zero pivot was divided by instead of being reported)"}
     tol = 1e-11 * max(1.0, rt.fro(A4))
     if L4.shape[:2] != (m, N) or U4.shape[:2] != (N, n):
         return {"what": "shapes of L/U", "L": L4.shape, "U": U4.shape}
-    if rt.fro(rt.qmm(P4, A4) - rt.qmm(L4, U4)) > tol:
+    if not rt.fro(rt.qmm(P4, A4) - rt.qmm(L4, U4)) <= tol:
         return {"what": "P A != L U", "err": rt.fro(rt.qmm(P4, A4) - rt.qmm(L4, U4))}
     Pr = P4[..., 0]
     if np.abs(P4[..., 1:]).max() > 0 or not (np.all(Pr.sum(0) == 1) and np.all(Pr.sum(1) == 1) and set(np.unique(Pr)) <= {0.0, 1.0}):
@@ -255,7 +257,7 @@ def _check_lu(A4, expect_ip=None):
                 return {"what": "U not upper-triangular"}
     L2, U2 = r.LU.quaternion_lu(A)
     err2 = rt.fro(A4 - rt.qmm(rt.q_to4(L2), rt.q_to4(U2)))
-    if err2 > tol:
+    if not err2 <= tol:
         return {"what": "two-output mode: A != L U", "err": err2, "permutation": [int(np.argmax(Pr[i])) for i in range(m)]}
     return None
 
@@ -324,6 +326,46 @@ def bounded(rep: Report, tier, seed):
             except ValueError as e:
                 return None if "pivot" in str(e).lower() else {"what": f"unexpected ValueError {e}"}
         b2.case(f"{P}.bounded.patterns", (m, n, t), f, f"{m}x{n} pattern {t}", inputs={"A": A4})
+    # exactly dependent columns (integer data): a later column becomes exactly zero during elimination
+    for t, (m, n, jdep) in enumerate(((3, 3, 1), (3, 2, 1), (3, 4, 1), (4, 4, 2), (4, 3, 2))):
+        A4 = rng.integers(-3, 4, size=(m, n, 4)).astype(float)
+        q = np.array([0.0, 2.0, 0.0, 0.0]) if t % 2 == 0 else np.array([1.0, 0.0, -1.0, 0.0])
+        A4[:, jdep] = rt.qmm(A4[:, jdep - 1:jdep], q.reshape(1, 1, 4))[:, 0]
+
+        def fdep(A4=A4):
+            try:
+                return _check_lu(A4)
+            except ValueError as e:
+                return None if "pivot" in str(e).lower() else {"what": f"unexpected ValueError {e}"}
+        b2.case(f"{P}.bounded.dependent_columns", (m, n, jdep, t), fdep, f"{m}x{n} with column {jdep} = column {jdep-1} * q (exactly singular)", inputs={"A": A4})
+    # exact breakdown in a later column: pivots are powers of two so that every multiplier is exact
+    def exact_singular(m, n, jdep):
+        A4 = np.zeros((m, n, 4))
+        col = [[2.0, 0, 0, 0], [1.0, 1.0, 0, 0], [1.0, 0, -1.0, 0], [0, 1.0, 0, 1.0]]
+        for i in range(m):
+            A4[i, 0] = col[i]
+        for j in range(1, n):
+            A4[:, j] = rng.integers(-2, 3, size=(m, 4))
+        if jdep == 1:
+            A4[:, 1] = rt.qmm(A4[:, 0:1], np.array([0.0, 2.0, 0.0, 0.0]).reshape(1, 1, 4))[:, 0]
+        else:
+            # column 1 independent with an exact second pivot, column 2 = combination of columns 0 and 1
+            A4[:, 1] = rt.qmm(A4[:, 0:1], np.array([0.0, 0.0, 1.0, 0.0]).reshape(1, 1, 4))[:, 0]
+            A4[1, 1] += [4.0, 0, 0, 0]
+            A4[:, 2] = rt.qmm(A4[:, 0:1], np.array([1.0, 0.0, 0.0, 1.0]).reshape(1, 1, 4))[:, 0] + rt.qmm(A4[:, 1:2], np.array([0.0, 1.0, 0.0, 0.0]).reshape(1, 1, 4))[:, 0]
+        return A4
+    for (m, n, jdep) in ((3, 3, 1), (3, 2, 1), (3, 4, 1), (4, 4, 2), (4, 4, 1)):
+        A4 = exact_singular(m, n, jdep)
+
+        def fex(A4=A4):
+            import warnings
+            with warnings.catch_warnings():
+                warnings.simplefilter("ignore")
+                try:
+                    return _check_lu(A4)
+                except ValueError as e:
+                    return None if "pivot" in str(e).lower() else {"what": f"unexpected ValueError {e}"}
+        b2.case(f"{P}.bounded.exact_breakdown", (m, n, jdep), fex, f"{m}x{n} integer matrix whose column {jdep} becomes exactly zero below the diagonal", inputs={"A": A4})
     z = np.zeros((3, 3, 4))
 
     def zero():
